@@ -196,6 +196,12 @@ type walk struct {
 	nViol, nKeyViol int
 	diffs           []keyDiff // objects whose keys fit no possible type: per not-contradicted type, the key difference
 	unstable        []string  // field paths of the unstable units the operation selects
+	via             []viaT    // stack: the field (and its parent type) each enclosing object was reached through
+}
+
+type viaT struct {
+	parent string
+	field  *ast.Field
 }
 
 // aboveUnstable: the position is an ancestor of an unstable unit of this operation, so a null
@@ -383,6 +389,7 @@ func (k *walk) object(obj map[string]any, def *ast.Definition, sets []ast.Select
 	for _, r := range readings {
 		trial := newWalk(k.w, k.stable)
 		trial.unstable = k.unstable
+		trial.via = k.via
 		trial.fields(obj, r.t, r.cs, u, path, rec)
 		if len(trial.viol) == 0 {
 			k.merge(trial)
@@ -416,6 +423,7 @@ func (k *walk) merge(o *walk) {
 }
 
 func (k *walk) fields(obj map[string]any, t *ast.Definition, cs []collected, u, path string, rec bool) {
+	k.serviceFacts(obj, t, cs, path)
 	for _, c := range cs {
 		f := c.fields[0]
 		cpath := path + "." + c.key
@@ -449,7 +457,9 @@ func (k *walk) fields(obj map[string]any, t *ast.Definition, cs []collected, u, 
 				sub = append(sub, ff.SelectionSet)
 			}
 		}
+		k.via = append(k.via, viaT{t.Name, f})
 		k.value(obj[c.key], fd.Type, sub, cu, cpath, crec, 0)
+		k.via = k.via[:len(k.via)-1]
 	}
 }
 
@@ -531,6 +541,99 @@ func clip(s string) string {
 		return s[:120] + "…"
 	}
 	return s
+}
+
+// ---- facts about the mock service's data -----------------------------------------------------
+
+// The shape and consistency oracles are relative; a few facts about what grpctest.MockService
+// answers give an absolute anchor: root fields that echo an argument into a result field, and
+// entity lookups that derive the name from the key (which ties every entity to its
+// representation, i.e. checks the order of _entities).
+type argEcho struct {
+	arg    []string // path into the arguments
+	result string   // result field that must carry the value
+}
+
+var argEchoes = map[string][]argEcho{
+	"Query.user":                         {{[]string{"id"}, "id"}},
+	"Query.category":                     {{[]string{"id"}, "id"}},
+	"Query.categoriesByKind":             {{[]string{"kind"}, "kind"}},
+	"Query.filterCategories":             {{[]string{"filter", "category"}, "kind"}},
+	"Query.typeFilterWithArguments":      {{[]string{"filterField1"}, "filterField1"}, {[]string{"filterField2"}, "filterField2"}},
+	"Query.typeWithMultipleFilterFields": {{[]string{"filter", "filterField1"}, "filterField1"}, {[]string{"filter", "filterField2"}, "filterField2"}},
+	"Query.testContainer":                {{[]string{"id"}, "id"}},
+}
+
+var lookupNames = map[string]string{"Storage": "Storage ", "Product": "Product "}
+
+func argLiteral(f *ast.Field, path []string) (string, bool) {
+	a := f.Arguments.ForName(path[0])
+	if a == nil {
+		return "", false
+	}
+	v := a.Value
+	for _, p := range path[1:] {
+		if v == nil || v.Kind != ast.ObjectValue {
+			return "", false
+		}
+		v = v.Children.ForName(p)
+	}
+	if v == nil || (v.Kind != ast.StringValue && v.Kind != ast.EnumValue) {
+		return "", false
+	}
+	return v.Raw, true
+}
+
+func (k *walk) serviceFacts(obj map[string]any, t *ast.Definition, cs []collected, path string) {
+	if len(k.via) == 0 {
+		return
+	}
+	via := k.via[len(k.via)-1]
+	if k.w.rig == "plain" {
+		for _, e := range argEchoes[via.parent+"."+via.field.Name] {
+			want, ok := argLiteral(via.field, e.arg)
+			if !ok {
+				continue
+			}
+			for _, c := range cs {
+				if c.fields[0].Name != e.result {
+					continue
+				}
+				k.labels["service-fact:argument-echo"] = true
+				if got, isStr := obj[c.key].(string); isStr && got != want {
+					k.bad("%s.%s: the service echoes argument %s = %q into %s, the response has %q", path, c.key, strings.Join(e.arg, "."), want, e.result, got)
+				}
+			}
+		}
+		return
+	}
+	// fed rig: objects reached directly through an owning-subgraph root field are answered by
+	// Lookup<Type>ById, which names the entity after its key
+	prefix, ok := lookupNames[t.Name]
+	if !ok || via.parent != k.w.schema.Query.Name {
+		return
+	}
+	var ids, names []string
+	for _, c := range cs {
+		switch c.fields[0].Name {
+		case "id":
+			if s, ok := obj[c.key].(string); ok {
+				ids = append(ids, s)
+			}
+		case "name":
+			if s, ok := obj[c.key].(string); ok {
+				names = append(names, s)
+			}
+		}
+	}
+	if len(ids) > 0 && len(names) > 0 {
+		k.labels["service-fact:entity-name-of-key"] = true
+		for _, n := range names {
+			if n != prefix+ids[0] {
+				k.bad("%s: the lookup names the %s with key %q %q, the response has %q (entity attached to the wrong representation?)", path, t.Name, ids[0], prefix+ids[0], n)
+			}
+		}
+	}
 }
 
 // ---- comparison -----------------------------------------------------------------------------
